@@ -85,3 +85,130 @@ def lin_interval(v: Term) -> Tuple[Optional[float], Optional[float]]:
     if r is None:
         return (None, None)
     return r
+
+
+# ---------------------------------------------------------------------------
+# matching a symbolic frame body against a reference token list (spec/wire_frames.json)
+FIXED_W = {"LEN": 4, "SESSION": 8, "TS": 8, "DEVID": 6, "DEVKEY": 2}
+
+
+def match_layout(body: Tuple[Term, ...], tokens: List[str]) -> Tuple[List[str], Dict[str, Term]]:
+    """Compare literal bytes and hole positions. Returns (mismatches, holes by role)."""
+    mism: List[str] = []
+    holes: Dict[str, Term] = {}
+    off = 0
+    total = body_width(body)
+    for tok in tokens:
+        if tok in FIXED_W:
+            w: Optional[int] = FIXED_W[tok]
+            role = tok
+            lit = None
+        elif tok.startswith("0*"):
+            w = int(tok[2:])
+            role = None
+            lit = "0" * w
+        elif tok.startswith("ARG:"):
+            _, r, ws = tok.split(":")
+            role = "ARG:" + r
+            w = None if ws == "*" else int(ws)
+            lit = None
+        else:
+            w = len(tok)
+            role = None
+            lit = tok
+        sl = field(body, off, off + w) if w is not None else T.slice_seq(("seq", "s", body), off, None)
+        if T.is_top(sl):
+            mism.append(f"nibbles {off}..{'' if w is None else off + w}: field boundary not determinable ({sl[1]})")
+            return mism, holes
+        if lit is not None:
+            got = literal(sl)
+            if got != lit:
+                mism.append(f"nibbles {off}..{off + w} (bytes {off // 2}..{(off + w + 1) // 2 - 1}): expected fixed {lit if len(lit) < 20 else lit[:8] + '...'} found {T.show(sl)[:80]}")
+        else:
+            sw = T.seq_width(sl)
+            if w is not None and (sw is None or not sw.is_const() or int(sw.const) != w):
+                mism.append(f"nibbles {off}..{off + w}: {role} should be {w} nibbles wide, found width {sw!r}: {T.show(sl)[:80]}")
+            if literal(sl) is not None and role in ("SESSION", "TS", "DEVID", "DEVKEY"):
+                mism.append(f"nibbles {off}..{off + (w or 0)}: {role} expected, found the constant {literal(sl)}")
+            holes[role] = sl  # type: ignore[index]
+        if w is None:
+            off = -1
+            break
+        off += w
+    if off >= 0:
+        if total is None or not total.is_const() or int(total.const) != off:
+            mism.append(f"frame body is {total!r} nibbles, reference layout is {off}")
+    return mism, holes
+
+
+def le32_of(sl: Term) -> Optional[Term]:
+    """If the 8 nibbles are hex(LE32(V)) return V."""
+    a = sl[2] if T.is_seq(sl) else ()
+    if len(a) == 4 and all(x[0] == "hbi" for x in a) and len({x[1] for x in a}) == 1 and [x[2] for x in a] == [0, 1, 2, 3]:
+        return a[0][1]
+    return None
+
+
+def mentions(v: Any, name: str) -> bool:
+    if isinstance(v, tuple):
+        if len(v) >= 2 and v[0] == "sym" and v[1] == name:
+            return True
+        return any(mentions(x, name) for x in v)
+    if isinstance(v, Lin):
+        return any(mentions(t, name) for t in v.coef)
+    return False
+
+
+def int_bounds_from_guard(pc: List[Term], v: Term) -> Tuple[Optional[int], Optional[int]]:
+    """Integer interval of term v implied by comparison atoms `v op const` in a conjunction."""
+    lo: Optional[int] = None
+    hi: Optional[int] = None
+
+    def upd(op: str, k: Any) -> None:
+        nonlocal lo, hi
+        if not isinstance(k, (int, float)):
+            return
+        import math
+        if op == "<":
+            h = math.ceil(k) - 1
+            hi = h if hi is None else min(hi, h)
+        elif op == "<=":
+            h = math.floor(k)
+            hi = h if hi is None else min(hi, h)
+        elif op == ">":
+            l = math.floor(k) + 1
+            lo = l if lo is None else max(lo, l)
+        elif op == ">=":
+            l = math.ceil(k)
+            lo = l if lo is None else max(lo, l)
+        elif op == "==":
+            lo = int(k) if lo is None else max(lo, int(k))
+            hi = int(k) if hi is None else min(hi, int(k))
+
+    flip = {"<": ">", "<=": ">=", ">": "<", ">=": "<=", "==": "=="}
+
+    def walk(g: Term) -> None:
+        nonlocal lo, hi
+        if not isinstance(g, tuple) or not g:
+            return
+        if g[0] == "and":
+            for x in g[1:]:
+                walk(x)
+        elif g[0] == "or":
+            # hull of the disjuncts (each taken alone)
+            subs = [int_bounds_from_guard([x], v) for x in g[1:]]
+            if all(s_[0] is not None for s_ in subs):
+                l = min(s_[0] for s_ in subs)  # type: ignore[type-var]
+                lo = l if lo is None else max(lo, l)
+            if all(s_[1] is not None for s_ in subs):
+                h = max(s_[1] for s_ in subs)  # type: ignore[type-var]
+                hi = h if hi is None else min(hi, h)
+        elif g[0] == "cmp" and g[1] in flip:
+            if g[2] == v and T.is_c(g[3]):
+                upd(g[1], g[3][1])
+            elif g[3] == v and T.is_c(g[2]):
+                upd(flip[g[1]], g[2][1])
+
+    for g in pc:
+        walk(g)
+    return lo, hi
